@@ -190,7 +190,12 @@ def check_single(A, v, Qd, Hd, m, tol, dt, kdim, detectable, K=None, assert_coun
             msgs.append(f"Q[:, {z0}:] non-zero (columns {nz[:6]}, norms "
                         f"{[float(kf.fmt(np.linalg.norm(Q[:, j]))) for j in nz[:4]]})")
         if msgs:
-            out.append(("padding", "; ".join(msgs) + f" after {s_exp} steps", {}))
+            between = False
+            if 1 <= s_exp <= Hfull.shape[1]:
+                r = abs(Hfull[s_exp, s_exp - 1])
+                sc = float(np.sqrt(abs(Hfull[0, 0]) ** 2 + (abs(Hfull[1, 0]) ** 2 if Hfull.shape[0] > 1 else 0.0)))
+                between = bool(tol / 2. < r <= tol * sc * (1 + 1e-3))
+            out.append(("padding", "; ".join(msgs) + f" after {s_exp} steps", {"between_thresholds": between}))
     if s_exp is not None and exhausted and s_exp >= 1 and s_obs >= s_exp and (detectable or s_exp == n):
         d = abs(Hfull[s_exp, s_exp - 1])
         if d > max(rt, 10 * tol) * sA:
@@ -617,6 +622,14 @@ def plan(cs, tier, seed):
                 items.append({"src": "random", "name": f"rand-batch-{'c' if cplx else 'r'}-n{n}-{vk}",
                               "seed": int(rng.randint(1 << 30)), "n": n, "kind": "dense" if vk == "generic" else "normal",
                               "cplx": cplx, "vkind": vk, "k": 3, "dt": dt, "tol": 1e-7, "ms": ms, "batch": 3})
+    # float32 Hermitian runs to the very end: where a single Gram-Schmidt pass loses orthogonality (regression guard
+    # for the DGKS correction, fix ab60504)
+    for n in (16, 64):
+        for rep in range(8 if n == 16 else 3):
+            items.append({"src": "random", "name": f"rand-herm-indef-r-n{n}-generic-reorth{rep}",
+                          "seed": int(rng.randint(1 << 30)), "n": n, "kind": "herm-indef", "cplx": False,
+                          "vkind": "generic", "k": 3, "dt": "f32", "tol": 1e-3, "ms": [n - 2, n - 1, n],
+                          "eigs": False, "alg_obj": False})
     return items
 
 
